@@ -74,10 +74,10 @@ Definition of_pval (v : Cli.pval Z Z) : sexp :=
 Definition table_prims (tbl : list (Cli.str * (Cli.str * result Z * result Z))) (others : list (Z * Cli.str * result Z))
   : Cli.pyprims Z Z :=
   Cli.mk_pyprims
-    (fun s => match PyRt.kdict_find Cli.str_eqb tbl s with Some e => fst (fst e) | None => s end)
-    (fun s => match PyRt.kdict_find Cli.str_eqb tbl s with Some e => snd (fst e) | None => Err 90 end)
-    (fun s => match PyRt.kdict_find Cli.str_eqb tbl s with Some e => snd e | None => Err 90 end)
-    (fun n s => match find (fun e => (fst (fst e) =? n) && Cli.str_eqb (snd (fst e)) s) others with
+    (fun s => match PyRt.kdict_find PyRt.str_eqb tbl s with Some e => fst (fst e) | None => s end)
+    (fun s => match PyRt.kdict_find PyRt.str_eqb tbl s with Some e => snd (fst e) | None => Err 90 end)
+    (fun s => match PyRt.kdict_find PyRt.str_eqb tbl s with Some e => snd e | None => Err 90 end)
+    (fun n s => match find (fun e => (fst (fst e) =? n) && PyRt.str_eqb (snd (fst e)) s) others with
                 | Some e => snd e | None => Err 90 end).
 Definition as_sigparam (s : sexp) : option (Cli.str * Cli.sigparam) :=
   match s with
@@ -93,8 +93,8 @@ Definition as_module (s : sexp) : option (Cli.str * (bool * option obj_t)) :=
   match s with SL [n; ok; a] => do n <- as_Zs n; do ok <- as_bool ok; do a <- as_option as_obj a; Some (n, (ok, a)) | _ => None end.
 Definition table_world (mods : list (Cli.str * (bool * option obj_t))) : Cli.pyworld (option (bool * option obj_t)) obj_t :=
   Cli.mk_pyworld
-    (fun n => if Cli.str_eqb n Cli.s_batchie then Ok None
-              else match PyRt.kdict_find Cli.str_eqb mods n with
+    (fun n => if PyRt.str_eqb n Cli.s_batchie then Ok None
+              else match PyRt.kdict_find PyRt.str_eqb mods n with
                    | Some (true, a) => Ok (Some (true, a)) | _ => Err 32 end)
     (fun _ _ => map fst mods)
     (fun m _ => match m with Some (_, a) => a | None => None end)
